@@ -1543,7 +1543,11 @@ class MacroFunction(Macro):
                         nexttok = input_args[argidx][0]  # Unexpanded arg
                     except ValueError:
                         nexttok = [nexttok]
-                    if len(last) > 0:
+                    if len(nexttok) == 0:
+                        # Pasting an empty argument leaves the left-hand
+                        # operand unchanged.
+                        res_tokens.extend(last)
+                    elif len(last) > 0:
                         lex = Lexer(last[-1].token + nexttok[0].token)
                         tok = lex.tokenize_one()
                         if tok is None:
